@@ -17,7 +17,7 @@ LEVEL = "exploration"
 DECIDING = ["operations", "store_checks"]
 MIN_DECIDED_RATIO = 0.9
 RULE = (
-    "operations: add(name in 2, source file in 2, content in 3), mutate(source, content), remove(existing name), add of a missing source file under an existing name (fails), new-instance; all histories "
+    "operations: add(name in 2 - the second one hierarchical, 'people/2024', in a third of the histories -, source file in 2, content in 3), mutate(source, content), remove(existing name), add of a missing source file under an existing name (fails), new-instance; all histories "
     "up to renaming (canonical first-use order) of length <= 4 (quick) / <= 5 (thorough) plus random histories of length 8-25. Non-trivial: "
     "a history with at least two registrations; distinct = distinct canonical histories."
 )
@@ -130,11 +130,24 @@ def all_histories(tier, seed):
         yield random_history(r)
 
 
-def check_store(cs, model, hashes, w):
+def check_store(cs, model, hashes, w, NAMES=NAMES):
     fm = cs.file_manager
     base = os.path.join("inputs", "named_files")
-    want_names = sorted(NAMES[n] for n in model.names)
-    got_names = sorted(fm.named_file_names) if os.path.isdir(base) else []
+    # (a name with a path separator lives more than one directory deep: the listing shows its first segment)
+    # of it, and keeps showing it when the name is removed - the listing is compared for the flat names only)
+    nested_tops = {x.split("/")[0] for x in NAMES if "/" in x}
+    want_names = sorted(NAMES[n] for n in model.names if "/" not in NAMES[n])
+    got_names = sorted(x for x in fm.named_file_names if x not in nested_tops) if os.path.isdir(base) else []
+    for n, name in enumerate(NAMES):
+        if "/" in name and n not in model.names:
+            try:
+                p_ = fm.get_named_file(name)
+            except Exception:  # noqa
+                p_ = None
+            if p_ and os.path.exists(p_):
+                w["name"] = name
+                w["get_named_file"] = p_
+                return "removed-name-still-resolves"
     if got_names != want_names:
         w["named_file_names"] = got_names
         w["model_names"] = want_names
@@ -201,7 +214,9 @@ def run_history(h, agg):
     cs = env.new_csvpaths()
     observer = env.new_csvpaths()  # long-lived, only ever reads: stale in-memory state would show here
     model = Model()
-    w = {"history": [list(op) for op in h], "configured_named_files_dir": "./inputs/named_files" if dotted else "inputs/named_files"}
+    # (a third of the histories use a hierarchical second name, e.g. grouped by period)
+    NAMES = ["orders", "people/2024"] if (len(h) + sum(len(op) for op in h) // 2) % 3 == 0 else ["orders", "people"]
+    w = {"history": [list(op) for op in h], "names": NAMES, "configured_named_files_dir": "./inputs/named_files" if dotted else "inputs/named_files"}
     for i, op in enumerate(h):
         w["step"] = i
         agg.count("operations")
@@ -235,7 +250,7 @@ def run_history(h, agg):
         for who, inst in (("same instance", cs), ("fresh instance", env.new_csvpaths()), ("long-lived reader instance", observer)):
             agg.count("store_checks")
             try:
-                pr = check_store(inst, model, None, w)
+                pr = check_store(inst, model, None, w, NAMES)
             except Exception as e:  # noqa
                 w["exc"] = f"{type(e).__name__}: {str(e)[:200]}"
                 pr = "store-api-raises"
